@@ -501,7 +501,37 @@ def _changed_post(c):
                                                     for f in ('_cache', '_mcache', '_scache')]))]
 
 
-CHANGED = CProc('LB_changed', [('self', OBJ), ('ignored', OBJ)], result=OBJ, requires=lambda c: [('self-is-an-object', c.a.self != C_NULL)],
-                ensures=_changed_post, modifies=['_cache', '_mcache', '_scache'], api=make_api(), globals=GLOBALS)
+changed_parse_fails = z3.Function('changed_arguments_do_not_parse', Obj, Obj, z3.BoolSort())
+
+
+def _changed_parse(ex, st, vs):
+    """PyArg_ParseTupleAndKeywords(args, kwds, "|O:changed", {"ignored"}, &ignored): at most one argument (def changed(self, ignored=None))"""
+    fmt = getattr(vs[2], 'lit', '')
+    outs = vs[4:]
+    if not fmt.strip('"').startswith('|O') or len(outs) != 1 or not isinstance(outs[0], cfun.VRef):
+        raise cfun.CUnsupported('LB_changed: argument format %r' % fmt)
+    a, k = vs[0].t, vs[1].t
+    bad = st.clone()
+    bad.assume(changed_parse_fails(a, k))
+    fail(bad, cfun.EXC_TYPE_ERROR)
+    st.assume(z3.Not(changed_parse_fails(a, k)))
+    st.env[outs[0].ref] = vobj(z3.Const('changed_ignored_argument', Obj))
+    return [(bad, vint(0)), (st, vint(1))]
+
+
+def _changed_post2(c):
+    s = c.a.self
+    ok = z3.Not(changed_parse_fails(c.a.args, c.a.kwds))
+    clauses = _changed_post(c)
+    return [(lbl, z3.Implies(ok, f)) for lbl, f in clauses] + [
+        ('arguments-that-do-not-parse-are-a-TypeError-and-the-caches-stay', z3.Implies(z3.Not(ok), z3.And(
+            c.res == C_NULL, c.exc == cfun.EXC_TYPE_ERROR, *[c.h(f) == c.h0(f) for f in ('_cache', '_mcache', '_scache')]))),
+        ('NULL-iff-an-exception-is-set', (c.res == C_NULL) == (c.exc != C_NULL))]
+
+
+_changed_api = make_api()
+_changed_api['PyArg_ParseTupleAndKeywords'] = _changed_parse
+CHANGED = CProc('LB_changed', [('self', OBJ), ('args', OBJ), ('kwds', OBJ)], result=OBJ, requires=lambda c: [('self-is-an-object', c.a.self != C_NULL)],
+                ensures=_changed_post2, modifies=['_cache', '_mcache', '_scache'], api=_changed_api, globals=GLOBALS)
 
 PROCS = [SUBCACHE, GETCACHE, LOOKUP, LOOKUP1, HOOK, LOOKUPALL, SUBSCRIPTIONS, CHANGED]
